@@ -16,7 +16,7 @@ def run(prog, R):
                      "offset bookkeeping of the LexedStr converter, an effect deny-list for determinism, and the lexer part of the panic inventory.")
     R.not_decided = ["u32 truncation of lengths for inputs >= 4 GiB (outside the stated size bound)"]
     R.assumptions = ["std::str::Chars::next advances by exactly one char and as_str() returns the remaining text", "input < 2^31 bytes"]
-    at = R.anchor(prog, "oq3_lexer::advance_token")
+    at = R.anchor(prog, "oq3_lexer::Cursor::advance_token")
     bump = R.anchor(prog, C + "bump")
     pw = R.anchor(prog, C + "pos_within_token")
     rs = R.anchor(prog, C + "reset_pos_within_token")
